@@ -4,6 +4,7 @@ CONSTANTS
   Lens = {2, 3}
   OneAxisMax = 4
   LargeN = {}
+  BandN = {}
   AB_WrongStep = TRUE
   FromSet <- MCFromSet
   LargeSet <- MCLargeSet
